@@ -542,6 +542,13 @@ structure PreCache where
   lEq : Int
   deriving DecidableEq, Repr
 
+/-- `start_receivership` (start_liquidation: `ignoreHealthy = false`; start_deleverage: `true`): the account must not be
+    healthy at maintenance level (liquidation), and the snapshot is the maintenance and the equity valuation of now -/
+def startReceivership (ps : List Pos) (ignoreHealthy : Bool) : Res PreCache := do
+  let (_, a, l) ← preLiquidation ps ignoreHealthy
+  let c ← components ps .equity
+  .ok { aMaint := a, lMaint := l, aEq := c.assets, lEq := c.liabs }
+
 /-- `a - b` with the `-` operator of I80F48 (aborts on overflow under the on-chain profile) -/
 def subOp (a b : Int) : Res Int := if inRange (a - b) then .ok (a - b) else .error .panic
 
